@@ -51,7 +51,7 @@ SPEC = {
         _job("hist", "hist", {"quick": 160000, "thorough": 5000000}),
         _job("xds", "xds", {"quick": 80000, "thorough": 2000000}),
         _job("exh", "exh", _EXH, {"p0": {"quick": 4, "thorough": 6}}),
-        _job("zap", "zap", {"quick": 40000, "thorough": 1500000}),
+        _job("zap", "zap", {"quick": 100000, "thorough": 3000000}),
     ],
     "min_distinct": 600,
     "min_counters": {"receptions": 10000000, "ev_network": 200000, "ev_network_id": 1000000, "ev_prog_id_vps": 100000,
